@@ -19,10 +19,13 @@ class Sched:
         self.steps = [0, 0]
         self.done = [False, False]
         self.switched = False
+        self.names = []          # code names at thread 0's yield points (probe runs)
 
     def tracer(self, me):
         def trace(frame, event, arg):
             if event == "call" and frame.f_globals.get("__name__", "").startswith("eyecite"):
+                if me == 0 and self.k >= 10 ** 9:
+                    self.names.append(frame.f_code.co_name)
                 self.yield_point(me)
             return None
         return trace
@@ -66,7 +69,7 @@ def run_pair(texts, opts, k):
         t.start()
     for t in ths:
         t.join(timeout=60)
-    return out, s.steps
+    return out, s.steps, s.names
 
 
 def run(payload):
@@ -75,7 +78,7 @@ def run(payload):
     res = []
     for ta, tb in payload["pairs"]:
         for k in payload["ks"]:
-            out, steps = run_pair([ta, tb], [payload.get("opt", 0)] * 2, k)
-            res.append({"k": k, "a": ta, "b": tb, "da": drv_purity.dig(out[0]) if out[0] is not None else "NONE",
+            out, steps, names = run_pair([ta, tb], [payload.get("opt", 0)] * 2, k)
+            res.append({"names": names if payload.get("want_names") else [], "k": k, "a": ta, "b": tb, "da": drv_purity.dig(out[0]) if out[0] is not None else "NONE",
                         "db": drv_purity.dig(out[1]) if out[1] is not None else "NONE", "steps": steps})
     return res
